@@ -258,6 +258,31 @@ pub fn check(pid: &str, seed: u64) -> Value {
                     for k in [0.0f32, 0.25, 0.5, 1.0] { evals += 1; if let Ok(ep) = run(&tcase(t, k, 1.0, lm)) { v.push((k, ep)); } }
                     if v.len() == 4 { nontrivial += 1; if let Some(w) = c03(&v) { failures.push(json!({"clause": "C03", "components": t, "load_matching": lm, "what": w})); } }
                 }
+                "C14" => {
+                    let steps_n = t.lines().next().map(|l| l.split(',').filter(|x| x.trim().parse::<f32>().is_ok()).count()).unwrap_or(1).max(1);
+                    for k in [0.0f32, 0.5, 1.0] {
+                        evals += 1;
+                        let e0 = match run(&tcase(t, k, 1.0, lm)) { Ok(e) => e, Err(_) => continue };
+                        nontrivial += 1;
+                        for d in [0.5f32, 5.0] {
+                            let more = format!("{}\n9,PRODUCCION,EL_INSITU,{}", t, std::iter::once(format!("{}", d)).chain(std::iter::repeat("0".to_string())).take(steps_n).collect::<Vec<_>>().join(","));
+                            evals += 1;
+                            if let Ok(e1) = run(&tcase(&more, k, 1.0, lm)) {
+                                let (a0, a1, b0, b1) = (e0.balance.we.a, e1.balance.we.a, e0.balance.we.b, e1.balance.we.b);
+                                let bio = t.contains("COGEN,BIOMASA");
+                                if !le(a1.nren, a0.nren) || !le(b1.nren, b0.nren) || !le(a1.co2, a0.co2) || !le(b1.co2, b0.co2) || !le(e1.balance.del.grid, e0.balance.del.grid) {
+                                    failures.push(json!({"clause": "C14.nren_co2_grid", "components": t, "k_exp": k, "load_matching": lm, "what": format!("adding {} kWh of on-site electricity raises nren / CO2 / grid delivery: B.nren {} -> {}, B.co2 {} -> {}, grid {} -> {}", d, b0.nren, b1.nren, b0.co2, b1.co2, e0.balance.del.grid, e1.balance.del.grid)}));
+                                }
+                                if k == 0.0 && b0.ren + b0.nren > 1e-3 && b1.ren + b1.nren > 1e-3 && !le(e0.rer, e1.rer) {
+                                    let cl = if bio { "C14.rer.renewable_cogeneration" } else { "C14.rer" };
+                                    if failures.iter().filter(|f| f["clause"] == cl).count() < 3 {
+                                        failures.push(json!({"clause": cl, "components": t, "k_exp": k, "load_matching": lm, "what": format!("adding {} kWh of on-site electricity lowers RER {} -> {}", d, e0.rer, e1.rer)}));
+                                    }
+                                }
+                            }
+                        }
+                    }
+                }
                 "C12" => {
                     if lm { continue; }
                     evals += 2;
